@@ -99,6 +99,38 @@ CHECKS.update({
                "TLC-exported programs round-tripped through str()/compile() and the recompiled query compared with the TLA+ semantics of the original", "5 (C10)"),
 })
 
+CHECKS.update({
+    "C06": ("exploration",
+            "Code -> specification: TLC enumerates the inputs (MC_Soup.tla: every lexeme soup up to a length bound and every single-lexeme mutant of valid queries, "
+            "pointers, relative pointers; patch operation lists with wrong or missing members); a recorder runs each through a session of real API calls under a "
+            "watchdog; TLC validates every recorded session against the session machine of Api.tla (allowed error families per call, construct-before-use, error "
+            "text renders). Exploration: the claim is 'on everything enumerated', termination is observed under a time bound.",
+            "Trusted: the property's own list of families as transcribed in Api.tla; exception classification by isinstance; 5 s watchdog per call. Inputs nested > 100 levels "
+            "and regex engine time are outside the universes.",
+            "TLC-enumerated inputs recorded through the real API; recorded sessions trace-validated by TLC against a TLA+ protocol specification", "5 (C06)"),
+    "C08": _mc("the program universes with their semantics, and the interleaving model MC_Async.tla",
+               "(A) every exported program x document through sync and 5 async entry points, plain and async-wrapped documents; (B) all interleavings of 2-3 concurrent evaluations",
+               "Trusted: the deterministic scheduler (send(None)) as a stand-in for an event loop; identity observed with `is`.",
+               "sync/async twins compared over TLC-exported programs; TLC-enumerated schedules replayed by resuming real coroutines in that order", "5 (C08)"),
+    "C09": _mc("the lazy-iterator / memo-cell machine (spec/MC_Sessions.tla)",
+               "all interleavings of open/next/close on lazy iterators, one-shot evaluations and re-compilation; SchedIndependence, CacheTransparency, OneWriter; "
+               "the wrong design SharedCells=TRUE is refuted by TLC on every run",
+               "Trusted: the abstraction of a resolution's cells as 'root and context captured at the first candidate'; interleaving at next() granularity only.",
+               "TLA+ model of lazy iterators and per-resolution memo cells model-checked with TLC; histories replayed into real generators with caching on and off", "5 (C09)"),
+    "C17": _mc("the token-assignment universe (spec/MC_Tokens.tla, Render.tla token styles)",
+               "every ordered pair of identifiers x ordered pair of spellings (prefix-related, multi-character, non-ASCII) x programs using every identifier",
+               "Trusted: the meaning of a program does not mention spellings (by construction of JsonPath.tla); renderer.",
+               "TLC-enumerated token assignments rendered by the specification; environment subclasses built and compared on token kinds, results and str() round trip", "5 (C17)"),
+    "C18": _mc("the CLI phase machine (spec/MC_Cli.tla)",
+               "every option combination x expression class x document class; exit codes, one-line errors, traceback only with --debug, no crash state, termination",
+               "Trusted: the concrete input chosen per class; main() run in-process with patched argv/stdio.",
+               "TLA+ phase machine model-checked with TLC; every terminal state instantiated and run through jsonpath.cli.main()", "5 (C18)"),
+    "C19": _mc("the projection machine (spec/Projection.tla, MC_Projection.tla)",
+               "documents x match queries x lists of relative queries; declarative = constructive formulation, every selected value at its rank-mapped location, no other leaves",
+               "Trusted: the definition of relative / root / flat projection as restated in DESIGN.md 5 (C19); objects compared unordered.",
+               "TLA+ projection semantics in two formulations model-checked with TLC; Query.select() compared with the exported projections", "5 (C19)"),
+})
+
 NOT_YET = {}
 
 
